@@ -174,7 +174,9 @@ def add(a, b):
     n = _nanres(a, b)
     if a.empty or b.empty:
         return Itv(empty=True, nan=n)
-    # inf + -inf -> nan : ignored unless both closed infinities
+    # inf + -inf -> nan when both infinities are attained
+    if (a.contains(INF) and b.contains(-INF)) or (a.contains(-INF) and b.contains(INF)):
+        n = True
     return Itv(a.lo + b.lo if not (math.isinf(a.lo) and math.isinf(b.lo) and a.lo != b.lo) else -INF,
                a.hi + b.hi if not (math.isinf(a.hi) and math.isinf(b.hi) and a.hi != b.hi) else INF,
                a.lo_open or b.lo_open, a.hi_open or b.hi_open, n, a.isint and b.isint)
@@ -212,6 +214,9 @@ def mul(a, b):
     hi = max(c[0] for c in cands)
     lo_o = all(c[1] for c in cands if c[0] == lo)
     hi_o = all(c[1] for c in cands if c[0] == hi)
+    # an attained infinity times an attained zero is NaN (inf * 0)
+    if ((a.contains(INF) or a.contains(-INF)) and b.contains(0.0)) or ((b.contains(INF) or b.contains(-INF)) and a.contains(0.0)):
+        n = True
     return Itv(lo, hi, lo_o, hi_o, n, a.isint and b.isint)
 
 
